@@ -872,6 +872,20 @@ theorem nf_fetchBodyAtt (fuel dp n : Nat) (guard : Bool) (h : 2 * n + 2 ≤ fuel
   have hB := nf_weaken ((nf_readBody guard fuel).1 n dp 0 h) (g' := fun _ => 0) (fun _ => Nat.zero_le _)
   nf_auto [nf_expectSP _, nf_setCur _ _]
 
+theorem nf_noSection (name : Bytes) (n : Nat) : NF0 n (noSection name) := by
+  unfold noSection; nf_auto
+
+theorem nf_fetchAttData (fuel dp n : Nat) (guard : Bool) (name : Bytes) (h : 2 * n + 2 ≤ fuel) :
+    NF0 n (fetchAttData fuel dp guard name) := by
+  unfold fetchAttData
+  have hF := fun k => nf_flagLoop fuel n k (by omega)
+  have hE := nf_readEnvelope fuel dp n (by omega)
+  have hB := nf_fetchBodyAtt fuel dp n guard (by omega)
+  nf_auto [nf_expectSP _, nf_setCur _ _, hF, nf_expectNumber64 _, nf_expectNumber _, nf_expectSpecial _ _, nf_expectModSeq _, nf_noSection _ _]
+
+theorem nf_bumpAtts (seq n : Nat) : NF0 n (bumpAtts seq) := by
+  unfold bumpAtts; exact nf_modifyCS _ _
+
 theorem nf_fetchAtt (fuel dp n seq : Nat) (guard : Bool) (h : 2 * n + 2 ≤ fuel) :
     NF n (fetchAtt fuel dp guard seq) (fun _ => 1) := by
   unfold fetchAtt
@@ -885,10 +899,8 @@ theorem nf_fetchAtt (fuel dp n seq : Nat) (guard : Bool) (h : 2 * n + 2 ≤ fuel
     rw [hm]
     have hw : ∀ (u : Unit), 1 - gOpt 1 (some nameRaw) ≤ 0 := by intro u; simp [gOpt]
     refine nf_weaken (g := fun _ => 0) ?_ hw
-    have hF := fun k => nf_flagLoop fuel (n - 1) k (by omega)
-    have hE := nf_readEnvelope fuel dp (n - 1) (by omega)
-    have hB := nf_fetchBodyAtt fuel dp (n - 1) guard (by omega)
-    nf_auto [nf_expectSP _, nf_setCur _ _, hF, nf_expectNumber64 _, nf_expectNumber _, nf_expectSpecial _ _, nf_expectModSeq _]
+    have hD := fun name => nf_fetchAttData fuel dp (n - 1) guard name (by omega)
+    nf_auto [hD, nf_bumpAtts _ _]
 
 theorem nf_handleFetch (fuel n seq : Nat) (cfg : Cfg) (h : 2 * n + 2 ≤ fuel) : NF0 n (handleFetch fuel cfg seq) := by
   unfold handleFetch
